@@ -42,10 +42,11 @@ type pending struct {
 }
 
 type runner struct {
-	c     *vh.Ctx
-	types map[string]bool
-	pool  []produced // (id, body) pairs Read produced, for the truncation / extension cases
-	cases []pending  // buffered; flush() hands them to vh in an order that balances the shards
+	c         *vh.Ctx
+	types     map[string]bool
+	pool      []produced // (id, body) pairs Read produced, for the truncation / extension cases
+	cases     []pending  // buffered; flush() hands them to vh in an order that balances the shards
+	firstTerm string     // set while judging an edited object (edits.go): the term of its first encoding
 }
 
 func (r *runner) emit(kind, coq, key string, nontrivial bool, sample any) {
@@ -164,6 +165,9 @@ func run(c *vh.Ctx) {
 
 	// ---- call orders on fresh objects (orders.go) ----
 	r.callOrders()
+
+	// ---- encode, edit the exported fields, encode again (edits.go) ----
+	r.editAfterEncode()
 
 	// ---- B: fixed GREASE ECH corpus ----
 	r.echCorpus()
